@@ -138,6 +138,16 @@ def jacobianBodyAux : List (V6 α × α) → T4 α × List (V6 α)
 
 def jacobianBody (joints : List (V6 α × α)) : List (V6 α) := (jacobianBodyAux joints).2
 
+/-- `CubicTimeScaling(Tf, t)`: 3 (t/Tf)^2 - 2 (t/Tf)^3 (port and reference are the same text) -/
+def cubicTimeScaling (Tf t : α) : α :=
+  let u := 1 * t / Tf
+  3 * (u * u) - 2 * (u * u * u)
+
+/-- `QuinticTimeScaling(Tf, t)`: 10 (t/Tf)^3 - 15 (t/Tf)^4 + 6 (t/Tf)^5 -/
+def quinticTimeScaling (Tf t : α) : α :=
+  let u := 1 * t / Tf
+  10 * (u * u * u) - 15 * (u * u * u * u) + 6 * (u * u * u * u * u)
+
 end BR.MR
 
 namespace BR.MR
